@@ -436,7 +436,8 @@ func (c *HostClient) Do(ctx context.Context, req *protocol.Request, resp *protoc
 		}
 
 		// Check whether this request should be retried
-		if !isRequestRetryable(req, resp, err) {
+		// (never one whose body stream is used up: the predicate cannot see that any more)
+		if streamedBody || !isRequestRetryable(req, resp, err) {
 			break
 		}
 
